@@ -581,6 +581,9 @@ func (s *Module) AddMPTNodes(nodes [][]byte) error {
 		if r.Err != nil {
 			return fmt.Errorf("failed to decode MPT node: %w", r.Err)
 		}
+		if n.Node.Type() == mpt.EmptyT {
+			return errors.New("unexpected empty MPT node")
+		}
 		err := s.restoreNode(n.Node)
 		if err != nil {
 			return err
